@@ -74,8 +74,13 @@ impl BlkFile {
     }
 
     pub fn read_block(&mut self, offset: u64, coin: &CoinType) -> Result<Block> {
+        // The block size is stored in front of the block, an offset below 4 cannot belong to a block
+        // (e.g. the index record of a pruned block carries no position)
+        let size_offset = offset
+            .checked_sub(4)
+            .ok_or::<Error>("Invalid data offset in block index".into())?;
         let reader = self.open()?;
-        reader.seek(SeekFrom::Start(offset - 4))?;
+        reader.seek(SeekFrom::Start(size_offset))?;
         let block_size = reader.read_u32::<LittleEndian>()?;
         reader.read_block(block_size, coin)
     }
